@@ -1,3 +1,3 @@
 #!/bin/sh
 # replays this counterexample against the real build
-cd /tmp/seedonly_C01d_16283 && VERIF_SCRIPT=/verif/replays/C01/VHarnessStorageLists_d11e7465_0/script.json VERIF_RAW_SALT=2 GOFLAGS=-mod=mod GOPROXY=off go test -vet=off -count=1 -overlay /verif/replays/C01/VHarnessStorageLists_d11e7465_0/overlay.json -run ^TestVerifReplay_VHarnessStorageLists$ -v ./mint/storage/sqlite
+cd /tmp/seedrepo_C15f && VERIF_SCRIPT=/verif/replays/C01/VHarnessStorageLists_d11e7465_0/script.json VERIF_RAW_SALT=0 GOFLAGS=-mod=mod GOPROXY=off go test -vet=off -count=1 -overlay /verif/replays/C01/VHarnessStorageLists_d11e7465_0/overlay.json -run ^TestVerifReplay_VHarnessStorageLists$ -v ./mint/storage/sqlite
